@@ -192,6 +192,9 @@ class WebBrowser(Application, discriminator="web-browser"):
         :param session_id: The Session ID the payload is to originate from. Optional.
         :return: True if successful, False otherwise.
         """
+        if not super().receive(payload=payload, session_id=session_id, **kwargs):
+            return False
+
         if not isinstance(payload, HttpResponsePacket):
             self.sys_log.warning(f"{self.name} received a packet that is not an HttpResponsePacket")
             self.sys_log.debug(f"{self.name}: {payload=}")
